@@ -208,6 +208,19 @@ def _depth(m, pos):
     return d
 
 
+def watch_status(repo, relf, sel, want):
+    """None if the function's whitespace-normalised text still has the recorded hash, else a message"""
+    try:
+        srcw = Source(relf, open(os.path.join(repo, relf)).read())
+        ws, we = srcw.locate(sel)
+    except (OSError, ScanError) as ex:
+        return "watch %s :: %s: %s" % (relf, sel, ex)
+    got = hashlib.sha256(" ".join(srcw.text[ws:we].split()).encode()).hexdigest()[:len(want)]
+    if got != want:
+        return ("watched function %s :: %s has changed (hash %s, recorded %s): it is not under contract, so nothing is decided about the new text" % (relf, sel, got, want))
+    return None
+
+
 _FAMILIES = {}
 
 
